@@ -20,9 +20,10 @@ def run(ctx):
     ctx.cov["states"] = max(ctx.cov["states"], len(rows))          # one matrix row = one evaluated case of the spec
     ctx.cov["transitions"] = max(ctx.cov["transitions"], len(rows))
     ctx.cov["exhaustive"] = not quick
-    if quick:
-        # seeded 1/4 slice of the matrix, both flavours, cached and uncached
-        rows = [x for i, x in enumerate(sorted(rows, key=lambda x: json.dumps(x, sort_keys=True))) if (i + ctx.seed) % 4 == 0]
+    # the whole matrix in both tiers (it is cheap): pairs of rows of one declaration matter too, because every declaration's rows run
+    # through ONE controller handle, forwards and then backwards (an option of an earlier call must not stick to a later one)
+    rows = sorted(rows, key=lambda x: json.dumps(x, sort_keys=True))
+    ctx.cov["exhaustive"] = True
     ctx.cov["behaviours_replayed"] = len(rows) * 2
     ctx.sample({"row": rows[0]})
     inp = os.path.join(ctx.scratch, "rows.json")
